@@ -33,7 +33,7 @@ BaseCfg == [ctl |-> "DistRatio", newton |-> "Simplified", pen |-> "DualNorm",
 Ctls == {"Exact", "Fixed", "ResRatio", "DistRatio"}
 Pens == {"Constant", "DualNorm", "DualEquil", "Pareto", "ObjFilter", "LagFilter"}
 
-AllPts == {0} \cup UNION {{hist[r][k].pt : k \in 1..Len(hist[r])} : r \in Runs}
+AllPts == {0} \cup UNION {{hist[r][k].pt : k \in 1..Len(hist[r])} : r \in Runs} \cup UNION {bad[r] : r \in Runs}
 NextId == 1 + (CHOOSE x \in AllPts : \A y \in AllPts : y <= x)
 
 Seq2(S) == SetToSeq(S)
@@ -69,7 +69,7 @@ MCTop(r) ==
   LET lim == cfg[r].limit # NoLimit /\ iter[r] >= cfg[r].limit
       tl == clk[r].fresh /\ clk[r].site = "terminate" /\ clk[r].expired IN
   /\ pc[r] = "Top"
-  /\ IF ~lim /\ ~clk[r].fresh THEN Tick(r, "terminate")
+  /\ IF ~lim /\ ~(clk[r].fresh /\ clk[r].site = "terminate") THEN Tick(r, "terminate")
      ELSE \E o \in ObsSpace :
             CheckTerminate(r, [iter |-> iter[r], cur |-> cur[r], obs |-> o,
                                status |-> IF lim THEN "IterationLimit" ELSE IF tl THEN "TimeLimit" ELSE OrderedStatus(o)])
@@ -184,4 +184,17 @@ TwinObsCfgs(r) == IF r = "A" THEN {[BaseCfg EXCEPT !.ctl = c, !.pen = p, !.twin 
                           ds \in {"never", "always", "clock"}, n \in {0, 1}, cp \in BOOLEAN, dbg \in BOOLEAN}
 TwinHistCfgs(r) == IF r = "A" THEN {[BaseCfg EXCEPT !.ctl = c, !.pen = p, !.algKey = 2, !.twin = "C10", !.limit = 1] : c \in {"DistRatio"}, p \in {"DualNorm", "ObjFilter"}}
                    ELSE {[BaseCfg EXCEPT !.ctl = "DistRatio", !.pen = p, !.twin = "C10", !.limit = 2] : p \in {"DualNorm", "ObjFilter"}}
+
+(* quick-tier spaces *)
+QDeadlineCfgs(r) == {[BaseCfg EXCEPT !.ctl = c, !.deadline = d, !.display = ds] :
+                      c \in {"Exact", "DistRatio"}, d \in 1..6, ds \in {"never", "clock"}}
+QObserverCfgs(r) == {[BaseCfg EXCEPT !.ctl = "Exact", !.display = ds, !.ncb = n, !.collectPath = cp] :
+                      ds \in {"never", "always", "clock"}, n \in {0, 1}, cp \in BOOLEAN}
+QTwinStopCfgs(r) == IF r = "A" THEN {[BaseCfg EXCEPT !.ctl = "Exact", !.pen = "ObjFilter", !.twin = "C08"]}
+                    ELSE {[cfg["A"] EXCEPT !.limit = l, !.deadline = d] : l \in {NoLimit, 1}, d \in {NoDeadline} \cup 1..6}
+QTwinObsCfgs(r) == IF r = "A" THEN {[BaseCfg EXCEPT !.ctl = "Exact", !.pen = "DualNorm", !.twin = "C09", !.ncb = 0, !.collectPath = FALSE, !.limit = 2]}
+                   ELSE {[cfg["A"] EXCEPT !.display = ds, !.ncb = n, !.collectPath = cp, !.debug = TRUE] :
+                          ds \in {"always", "clock"}, n \in {0, 1}, cp \in {TRUE}}
+QTwinHistCfgs(r) == IF r = "A" THEN {[BaseCfg EXCEPT !.pen = "ObjFilter", !.algKey = 2, !.twin = "C10", !.limit = 1]}
+                    ELSE {[BaseCfg EXCEPT !.pen = "ObjFilter", !.twin = "C10", !.limit = 1]}
 =============================================================================
